@@ -2,10 +2,15 @@ package main
 
 import (
 	"bufio"
+	"encoding/hex"
+	"encoding/json"
 	"fmt"
 	"io"
 	"os"
 	"os/exec"
+	"strings"
+
+	"github.com/smhanov/syzgydb"
 )
 
 // Driver is the compiled Lean model speaking the line protocol.
@@ -65,4 +70,32 @@ func abbreviate(s string, n int) string {
 func fatal(format string, a ...any) {
 	fmt.Fprintf(os.Stderr, "harness: "+format+"\n", a...)
 	os.Exit(3)
+}
+
+// SendNew issues the model's `new` command; when the model asks for the decoding of an options
+// record that this code did not write itself (`need-json <hex>`), the answer of encoding/json —
+// exactly the call NewCollection makes — is supplied as an oracle and the command is repeated.
+func (d *Driver) SendNew(mode, metric, dim, quant int, path string) string {
+	base := fmt.Sprintf("new %d %d %d %d %s", mode, metric, dim, quant, hexW([]byte(path)))
+	cmd := base
+	for i := 0; i < 4; i++ {
+		r := d.Send(cmd)
+		if !strings.HasPrefix(r, "need-json ") {
+			return r
+		}
+		blobHex := strings.TrimPrefix(r, "need-json ")
+		blob := []byte{}
+		if blobHex != "-" {
+			blob, _ = hex.DecodeString(blobHex)
+		}
+		opts := syzgydb.CollectionOptions{Name: path, DistanceMethod: metric, DimensionCount: dim, Quantization: quant}
+		ans := "err"
+		if err := json.Unmarshal(blob, &opts); err == nil && opts.DistanceMethod >= 0 && opts.DimensionCount >= 0 && opts.Quantization >= 0 {
+			ans = fmt.Sprintf("%d,%d,%d", opts.DistanceMethod, opts.DimensionCount, opts.Quantization)
+		} else if err == nil {
+			ans = "err" // negative values cannot be represented in the model; reported by the caller as a divergence if it matters
+		}
+		cmd = cmd + " " + blobHex + "=" + ans
+	}
+	return "need-json-loop"
 }
